@@ -569,6 +569,27 @@ func (c *Ctx) c20CauseTable() {
 							okE = true
 						}
 					}
+					// a wrapper that does something between the call and its single way out (metrics, a log line) and
+					// then returns the helper's results as they are: every return behind the call hands on that very error
+					{
+						anyRet, allOn := false, true
+						start := PointOf(o.call)
+						start.Idx++
+						for _, cr := range Returns(co.Fn) {
+							if reach, _ := Reach(start, PointOf(cr), NewCut()); !reach {
+								continue
+							}
+							anyRet = true
+							n := len(cr.Results)
+							ex, isEx := cr.Results[n-1].(*ssa.Extract)
+							if n == 0 || !isEx || ex.Tuple != o.call.Value() {
+								allOn = false
+							}
+						}
+						if anyRet && allOn {
+							okE = true
+						}
+					}
 					for _, cr := range Returns(co.Fn) {
 						// tail call: return helper(...)
 						if n := len(cr.Results); n > 0 && exIsCallResult(co.Of(cr.Results[n-1]), o.call) && cr.Block() == o.call.Block() {
